@@ -4,6 +4,8 @@
 #define VERIF_SHIM_IDNA_H
 typedef int Idna_rc;
 #define IDNA_SUCCESS 0
+#define IDNA_ALLOW_UNASSIGNED 0x0001
+#define IDNA_USE_STD3_ASCII_RULES 0x0002
 int idna_to_ascii_lz(const char *input, char **output, int flags);
 const char *idna_strerror(Idna_rc rc);
 #endif
